@@ -295,6 +295,19 @@ def run_engines(c, rng):
             if p['power'] / 9810.0 * (1e-5 / qa ** 2 + 1e-3 / qa) > 0.5:
                 c.inconclusive('power_pump_operating_point_ill_conditioned')
                 return
+    # ... an active FCV throttles: it never adds head.  EPANET has been seen to report an FCV Active at a setting above the flow the
+    # network can deliver, with the head RISING across the valve (a pump in disguise) right after a rule changed the setting
+    for v_ in spec['valves']:
+        if v_['type'] != 'FCV':
+            continue
+        for k in range(len(times)):
+            if int(re_.link['status'][v_['name']].values[k]) == 2:
+                qv_ = float(re_.link['flowrate'][v_['name']].values[k])
+                open_loss = ref.minor_k(v_['minor_loss'], v_['diameter']) * qv_ * qv_
+                dh_ = float(re_.node['head'][v_['start']].values[k]) - float(re_.node['head'][v_['end']].values[k])
+                if dh_ < 0.98 * open_loss - 0.01:      # less loss than the fully open valve has at that flow
+                    c.inconclusive('epanet_active_fcv_adds_head')
+                    return
     # ... and under pressure-dependent demand every junction's delivered demand lies on the pressure-demand curve at EPANET's own
     # pressure (EPANET 2.2 has been seen to deliver the full demand at t = 0 to a junction below the required pressure)
     if o['demand_model'] == 'PDD':
@@ -459,6 +472,7 @@ def run_engines(c, rng):
     pipe_law = {p_['name']: (ref.hw_k(p_['roughness'], p_['diameter'], p_['length']), ref.minor_k(p_['minor_loss'], p_['diameter']), p_)
                 for p_ in spec['pipes']}
     open_valve_loss = {v_['name']: (ref.minor_k(v_['minor_loss'], v_['diameter']), v_) for v_ in spec['valves']}
+    end_nodes = {l_['name']: (l_['start'], l_['end']) for l_ in spec['pipes'] + spec['pumps'] + spec['valves']}
     skip_steps = set(k for idx in mismatch.values() for k in idx)
     # EPANET also evaluates rules at the end of every hydraulic step, WNTR only on the rule grid: when the rule step does not divide
     # the hydraulic step a rule's setting action can take effect one report step apart in the two engines.  A valve setting that
@@ -514,6 +528,9 @@ def run_engines(c, rng):
                 worst = (d / (1e-5 + 1e-3 * qmax + flow_slack), 'demand', n, t, a, b)
         for ln in links:
             a, b = float(rw.link['flowrate'][ln].values[i]), float(re_.link['flowrate'][ln].values[i])
+            if end_nodes[ln][0] not in conn and end_nodes[ln][1] not in conn:
+                c.count('links_in_cut_off_zone_skipped')      # a link inside a zone without any source: WNTR zeroes it (C09), EPANET lets it float
+                continue
             c.count('engine_values_compared')
             d = abs(a - b)
             lim = 1e-5 + 1e-3 * qmax + flow_slack
